@@ -227,4 +227,37 @@ def declaredAtL (T : STree) (nm : Naming) (t : Taxon) (sp : List Species) : List
 def unreferencedAtL (T : STree) (nm : Naming) (t : Taxon) (sp : List Species) (fams : List (Taxon × SL)) : List String :=
   (declaredAtL T nm t sp).filter fun g => !(fams.flatMap fun f => genesOf f.2).contains g
 
+/-! ### lineages of a history at a taxon (used by the counting theorems and evaluated by the driver) -/
+
+mutual
+/-- number of lineages of the history `l` (rooted at taxon `q`) that cross the taxon `t` -/
+def lineagesAt (t : Taxon) : Taxon → SL → Nat
+  | _, .gene _ _ => 0
+  | q, .grp _ _ _ subs => (if q == t then 1 else 0) + lineagesAtSubs t q subs
+def lineagesAtSubs (t : Taxon) (q : Taxon) : List Sub → Nat
+  | [] => 0
+  | .one i l :: r => lineagesAt t (i :: q) l + lineagesAtSubs t q r
+  | .dup i _ cs :: r => lineagesAtCopies t (i :: q) cs + lineagesAtSubs t q r
+  | .ann _ :: r => lineagesAtSubs t q r
+def lineagesAtCopies (t : Taxon) (q : Taxon) : List SL → Nat
+  | [] => 0
+  | c :: cs => lineagesAt t q c + lineagesAtCopies t q cs
+end
+
+mutual
+/-- number of lineages of the history `l` (rooted at `q`) that cross `a` and have no lineage crossing `d` below them -/
+def extinctAt (a d : Taxon) : Taxon → SL → Nat
+  | _, .gene _ _ => 0
+  | q, .grp w hid label subs =>
+    (if q == a && lineagesAt d q (.grp w hid label subs) == 0 then 1 else 0) + extinctAtSubs a d q subs
+def extinctAtSubs (a d : Taxon) (q : Taxon) : List Sub → Nat
+  | [] => 0
+  | .one i l :: r => extinctAt a d (i :: q) l + extinctAtSubs a d q r
+  | .dup i _ cs :: r => extinctAtCopies a d (i :: q) cs + extinctAtSubs a d q r
+  | .ann _ :: r => extinctAtSubs a d q r
+def extinctAtCopies (a d : Taxon) (q : Taxon) : List SL → Nat
+  | [] => 0
+  | c :: cs => extinctAt a d q c + extinctAtCopies a d q cs
+end
+
 end Pyham
